@@ -104,9 +104,27 @@ Theorem C05_refuted_alias_destructure :     (* t := (1, 2) ; (p, q) := t ; p = 5
 Proof. exact refuted_alias_destructure. Qed.
 Print Assumptions C05_refuted_alias_destructure.
 
+Theorem C05_refuted_int_op_partial :        (* ~m<[u8]:1,3> := [1 100 3] ; m += 200<u8>  => error, m is [201 100 3] *)
+  ~ trace_ok [] (impl_trace cfg_cur store0 w_int_op_partial) /\
+  classes cfg_cur store0 [] w_int_op_partial (model_obs cfg_cur w_int_op_partial) = Some ["int-op-partial"].
+Proof. exact refuted_int_op_partial. Qed.
+Print Assumptions C05_refuted_int_op_partial.
+
+Theorem C05_refuted_int_div_partial :       (* ~m<[u8]:1,3> := [4 4 4] ; m /= [2<u8> 0<u8> 2<u8>]  => error, m is [2 4 4] *)
+  ~ trace_ok [] (impl_trace cfg_cur store0 w_int_div_partial) /\
+  classes cfg_cur store0 [] w_int_div_partial (model_obs cfg_cur w_int_div_partial) = Some ["int-op-partial"].
+Proof. exact refuted_int_div_partial. Qed.
+Print Assumptions C05_refuted_int_div_partial.
+
+Theorem C05_refuted_r64_div_zero :          (* ~x := 3/2 ; x /= 0<r64>  => error, x is 1/0 *)
+  ~ trace_ok [] (impl_trace cfg_cur store0 w_r64_div_zero) /\
+  classes cfg_cur store0 [] w_r64_div_zero (model_obs cfg_cur w_r64_div_zero) = Some ["r64-div-zero-partial"].
+Proof. exact refuted_r64_div_zero. Qed.
+Print Assumptions C05_refuted_r64_div_zero.
+
 (* 9. Outside the classes the model satisfies the property, for every history: no variable on the right of a
-      definition (so nothing is shared), no destructure, no over-long table column (no kernel failing after
-      it wrote).  All other statements are unrestricted: valid or invalid assignments of every form, with
+      definition (so nothing is shared), no destructure, no over-long table column and no integer op-assignment
+      that panics midway (no kernel failing after it wrote).  All other statements are unrestricted: valid or invalid assignments of every form, with
       variables on their right-hand sides, redefinitions, undefined and immutable targets ... *)
 Theorem C05_holds : forall h : list stmt,
   Forall safe_stmt h -> no_partial cfg_cur store0 h = true ->
@@ -118,10 +136,13 @@ Print Assumptions C05_holds.
        immutable.diff, C05-table-column-length.diff: `y := x` deep-copies, a destructure checks all targets first
        and binds immutable copies, a table column refuses an over-long source) satisfies the property on EVERY
        history whose definitions do not use a tuple/record literal with a variable element (class alias-literal,
-       which the patches leave alone): bare-variable definitions, destructures of every shape, valid and
-       invalid assignments of all forms are covered. *)
+       which the patches leave alone) and in which no op-assignment on integers panics after its first element
+       (classes int-op-partial and r64-div-zero-partial: an integer overflow or division by zero midway through
+       a matrix, a rational divided by zero; no patch proposed):
+       bare-variable definitions, destructures of every shape, valid and invalid assignments of all forms and
+       kinds are covered. *)
 Theorem C05_repaired_holds : forall h : list stmt,
-  Forall rep_safe h -> trace_ok [] (impl_trace cfg_rep store0 h).
+  Forall rep_safe h -> no_op_partial cfg_rep store0 h = true -> trace_ok [] (impl_trace cfg_rep store0 h).
 Proof. exact repaired_holds. Qed.
 Print Assumptions C05_repaired_holds.
 
@@ -130,6 +151,8 @@ Print Assumptions C05_repaired_holds.
 Example C05_repaired_example :
   Forall rep_safe (w_alias_define ++ w_alias_destructure) /\
   Forall rep_safe w_destructure_partial /\ Forall rep_safe w_table_column_partial /\
+  no_op_partial cfg_rep store0 (w_alias_define ++ w_alias_destructure) = true /\
+  no_op_partial cfg_rep store0 w_destructure_partial = true /\ no_op_partial cfg_rep store0 w_table_column_partial = true /\
   last (states (impl_trace cfg_rep store0 w_alias_define)) [] =
     [("a", (false, DNum (dz 1))); ("b", (true, DNum (dz 5)))] /\
   map (fun t => snd (fst t)) (impl_trace cfg_rep store0 w_alias_destructure) = [true; true; false] /\
@@ -148,7 +171,7 @@ Print Assumptions C05_repaired_example.
 Example C05_example :
   let h := [SDef true "x" (ENum (dz 4)); SDef false "y" (ENum (dz 1)); SOp "x" OAdd (EVar "y");
             SAssign "y" (ENum (dz 2)); SDef false "x" (ENum (dz 0)); SOp "x" OAdd (ENum (dz 2));
-            SDef true "m" (EMat 2 2 [dz 1; dz 3; dz 2; dz 4]); SIdx2 "m" 1 2 (dz 9); SIdx1 "m" 7 (dz 9);
+            SDef true "m" (EMat 2 2 [dz 1; dz 3; dz 2; dz 4]); SIdx2 "m" 1 2 (SF (dz 9)); SIdx1 "m" 7 (SF (dz 9));
             SDef true "r" (ERec [("fa", ANum (dz 1)); ("fb", AMat 1 2 [dz 1; dz 2])]); SField "r" "fa" (ENum (dz 3));
             SAssign "z" (ENum (dz 1))] in
   Forall safe_stmt h /\ no_partial cfg_cur store0 h = true /\
